@@ -55,8 +55,8 @@ mutant("c04-enumerate-no-scope", "C04", "builtins.py", SCOPED_ENUM_OLD,
        "    count = start\n    async for item in aiter(iterable):\n        yield count, item\n        count += 1\n",
        rule="R04.1", unit="builtins.enumerate")
 mutant("c04-sum-unfix", "C04", "builtins.py",
-       "    async with ScopedIter(iterable) as item_iter:\n        async for item in item_iter:\n            total += item\n",
-       "    async for item in aiter(iterable):\n        total += item\n",
+       "    async with ScopedIter(iterable) as item_iter:\n        async for item in item_iter:\n            total = total + item\n",
+       "    async for item in aiter(iterable):\n        total = total + item\n",
        rule="R04.1", unit="builtins.sum")
 mutant("c04-zip-finally-partial", "C04", "builtins.py",
        "    finally:\n        for iterator in aiters:\n",
@@ -573,8 +573,8 @@ mutant("c03-exitstack-callback-raw", "C03", "contextlib.py",
        "partial(self._aexit_callback, partial(awaitify(callback), *args, **kwargs))",
        "partial(self._aexit_callback, partial(callback, *args, **kwargs))", props=["C03", "C14"])
 mutant("c03-sum-sync-for", "C03", "builtins.py",
-       "    async with ScopedIter(iterable) as item_iter:\n        async for item in item_iter:\n            total += item\n",
-       "    for item in iterable:  # type: ignore\n        total += item\n", rule="R03.2", unit="builtins.sum")
+       "    async with ScopedIter(iterable) as item_iter:\n        async for item in item_iter:\n            total = total + item\n",
+       "    for item in iterable:  # type: ignore\n        total = total + item\n", rule="R03.2", unit="builtins.sum")
 mutant("c03-list-async-for-direct", "C03", "builtins.py",
        "    async with ScopedIter(iterable) as item_iter:\n        return [element async for element in item_iter]\n",
        "    return [element async for element in iterable]  # type: ignore\n", rule="R03.2", unit="builtins.list")
